@@ -81,7 +81,7 @@ class Actor(object):
         self.pgpy = pgpy
         self.idx = idx
         self.m = Model(primary)
-        self.spare_subs = [s for s in ['cv25519_%d' % idx, 'ed25519_3', 'ecdsa_p256_1', 'rsa1024_1', 'ecdh_p256_0'] if s != primary]
+        self.spare_subs = [s for s in ['cv25519_%d' % idx, 'rsa2048_1', 'ed25519_3', 'ecdsa_p256_1', 'ecdh_p256_0'] if s != primary]
         self.nuid = 0
         if foreign:
             # the history starts from a key another implementation made (reference encoder/signer, legal non-PGPy encodings)
@@ -122,6 +122,10 @@ class Actor(object):
             kw['primary'] = primary
         if kexp:
             kw['key_expiration'] = timedelta(seconds=kexp)
+        if self.nuid % 2 == 0:
+            # subpackets of 192 octets and more (two-octet subpacket lengths) in signatures made in-process
+            kw['keyserver'] = 'hkps://keys.example.org/' + 'k' * (170 + 20 * self.nuid)
+            kw['policy_uri'] = 'https://example.org/policy/' + 'p' * 300
         with self.unlocked():
             # the comment of every identity quotes the names and addresses of all the others: only an exact match of a whole field selects an identity
             aka = 'aka ' + ', '.join('Key%d User1%s %su1@k%d.example' % (self.idx, 'x' * j, 'x' * j, self.idx) for j in range(6))
